@@ -186,6 +186,12 @@ func (d *docInfo) hazard(s string) { d.hazards = append(d.hazards, s); d.desc = 
 
 type genOpts struct {
 	allowHazards bool
+	// dangling > 0: a reference to a FREE object (generation 1, on the free list) from an entry the
+	// writer follows. 1: /Annots array element -> head of the free list; 2: /Annots itself -> head;
+	// 3: a resource entry (/ExtGState /GS9) -> head; 4: /Annots array element -> second free object;
+	// 5: PieceInfo private data -> head; 6: resource entry -> second free object
+	dangling int
+	noInfo   bool // no /Info in the trailer (the writer then creates an info dict)
 }
 
 func randValue(r *rand.Rand, b *pdfb, depth int) string {
@@ -247,6 +253,16 @@ func genDoc(r *rand.Rand, opt genOpts) ([]byte, *docInfo) {
 	if r.Intn(6) == 0 {
 		b.ver = pick(r, "1.4", "1.5", "1.6")
 	}
+	// referenced free objects: the two lowest numbers, so that the first is the head of the free list
+	dangTarget := 0
+	if opt.dangling > 0 {
+		f1, f2 := b.alloc(), b.alloc()
+		dangTarget = f1
+		if opt.dangling == 4 || opt.dangling == 6 {
+			dangTarget = f2
+		}
+		di.note(fmt.Sprintf("dangling-free-ref:variant%d->%d", opt.dangling, dangTarget))
+	}
 	// leave some numbers free
 	if r.Intn(3) == 0 {
 		b.alloc()
@@ -300,6 +316,9 @@ func genDoc(r *rand.Rand, opt genOpts) ([]byte, *docInfo) {
 		}
 		if r.Intn(3) == 0 {
 			s += " /ProcSet [/PDF /Text]"
+		}
+		if opt.dangling == 3 || opt.dangling == 6 {
+			s += fmt.Sprintf(" /ExtGState << /GS9 %d 0 R >>", dangTarget)
 		}
 		return s + " >>"
 	}
@@ -481,7 +500,19 @@ func genDoc(r *rand.Rand, opt genOpts) ([]byte, *docInfo) {
 			s += fmt.Sprintf(" /Contents %d 0 R", b.stream(r, "", text, r.Intn(4)))
 		}
 		// annotations
-		if r.Intn(3) == 0 {
+		dangAnnots := i == 0 && (opt.dangling == 1 || opt.dangling == 2 || opt.dangling == 4)
+		if dangAnnots {
+			if opt.dangling == 2 {
+				s += fmt.Sprintf(" /Annots %d 0 R", dangTarget)
+			} else {
+				a := b.add(fmt.Sprintf("<< /Type /Annot /Subtype /Text /Rect [10 60 30 80] /Contents (kept) /P %d 0 R >>", n.nr))
+				s += fmt.Sprintf(" /Annots [%d 0 R %d 0 R]", dangTarget, a)
+			}
+		}
+		if i == 0 && opt.dangling == 5 {
+			s += fmt.Sprintf(" /PieceInfo << /MyApp << /LastModified (D:20200101000000Z) /Private [%d 0 R] >> >> /LastModified (D:20200101000000Z)", dangTarget)
+		}
+		if !dangAnnots && r.Intn(3) == 0 {
 			var an []string
 			target := pageNodes[r.Intn(len(pageNodes))].nr
 			switch r.Intn(4) {
@@ -508,7 +539,7 @@ func genDoc(r *rand.Rand, opt genOpts) ([]byte, *docInfo) {
 				s += fmt.Sprintf(" /Annots %d 0 R", b.add("["+strings.Join(an, " ")+"]"))
 			}
 		}
-		if r.Intn(6) == 0 {
+		if !(i == 0 && opt.dangling == 5) && r.Intn(6) == 0 {
 			s += " /PieceInfo << /MyApp << /LastModified (D:20200101000000Z) /Private " + randValue(r, b, 2) + " >> >> /LastModified (D:20200101000000Z)"
 			di.note("page-pieceinfo")
 		}
@@ -636,7 +667,7 @@ func genDoc(r *rand.Rand, opt genOpts) ([]byte, *docInfo) {
 
 	// info
 	info := 0
-	if r.Intn(5) != 0 {
+	if r.Intn(5) != 0 && !opt.noInfo {
 		s := "<<"
 		for _, k := range []string{"Title", "Author", "Subject", "Keywords", "Creator"} {
 			if r.Intn(2) == 0 {
